@@ -1085,7 +1085,7 @@ pub fn run() {
     c.assume("copy / subgraph_from_vertices are outside the statement: only vertex/edge structure is judged; boundary lists and scalar of the copy are observed, not judged");
 
     let arb = Shape { max_spiders: 5, pool: PhasePool::Exact, graph_like: false, bare_p: 0.15, h_p: 0.35, multi_p: 0.3, same_role_pairs: false };
-    let n_pairs = t.pick(2500usize, 300_000usize);
+    let n_pairs = t.pick(7500usize, 300_000usize);
     let max_sp = t.pick(5usize, 7usize);
 
     par_cases("plug-arbitrary-exact", n_pairs, move |r, i| {
@@ -1138,7 +1138,7 @@ pub fn run() {
         circuit_pair_case("plug-circuit-derived", i, r, cq, cd);
     });
 
-    let n_un = t.pick(1200usize, 100_000usize);
+    let n_un = t.pick(3600usize, 100_000usize);
     let max_w = t.pick(3usize, 4usize);
     par_cases("unary-arbitrary-exact", n_un, move |r, i| {
         let sh = Shape { max_spiders: max_sp, ..arb };
@@ -1165,7 +1165,7 @@ pub fn run() {
         unary_case("unary-gen-random", i, r, d);
     });
 
-    let n_id = t.pick(6000usize, 400_000usize);
+    let n_id = t.pick(18000usize, 400_000usize);
     par_cases("identity-near", n_id, move |r, i| {
         let (d, variant) = gen_near_identity(r);
         identity_case("identity-near", i, r, d, variant);
